@@ -93,7 +93,7 @@ def outcome_ref(o):
 
 def default_cell():
     return {'interval': 25, 'timeout': 20, 'buf': 1000000, 'allow': True, 'transports': None,
-            'ws_avail': True, 'cookie': 'none', 'outcome': 'None', 'jsonp': False}
+            'ws_avail': True, 'cookie': 'none', 'outcome': 'None', 'jsonp': False, 'cred': True, 'cors': 'default'}
 
 
 def cells(thorough):
@@ -123,6 +123,13 @@ def cells(thorough):
         c = dict(default_cell(), outcome=o, jsonp=j)
         if emit(c):
             out.append(c)
+    # options that have nothing to do with the handshake answer, next to the ones that do: CORS credentials off, an open /
+    # disabled origin policy, compression off
+    for ck, cred, cors in itertools.product(COOKIES, [True, False], ['default', 'star', 'off']):
+        for o in ('None', 'dict'):
+            c = dict(default_cell(), cookie=ck, cred=cred, cors=cors, outcome=o)
+            if emit(c):
+                out.append(c)
     if thorough:
         for i, t, a, tr, wa, ck, o, j in itertools.product(
                 [1, 1.5, (1.5, 0.5)], [1, 0.5], [True, False], TRANSPORTS, [True, False],
@@ -145,7 +152,9 @@ def run_cell(impl, via, cell, out):
     _COOKIE_BOX['n'] = 0
     kw = dict(ping_interval=tuple(cell['interval']) if isinstance(cell['interval'], (list, tuple)) else cell['interval'],
               ping_timeout=cell['timeout'], max_http_buffer_size=cell['buf'],
-              allow_upgrades=cell['allow'], cookie=cookie_cfg(cell['cookie']))
+              allow_upgrades=cell['allow'], cookie=cookie_cfg(cell['cookie']), cors_credentials=cell.get('cred', True))
+    if cell.get('cors', 'default') != 'default':
+        kw['cors_allowed_origins'] = '*' if cell['cors'] == 'star' else []
     if cell['transports'] is not None:
         kw['transports'] = list(cell['transports'])
     allowed = cell['transports'] or ['polling', 'websocket']
@@ -577,7 +586,7 @@ def run(ctx):
     rep.coverage = {
         'evaluations': n,
         'distinct_nontrivial': n - kinds.get('skipped', 0),
-        'rule': 'configuration cells: timing %dx%dx%d, upgrades 2x4x2, cookie 7x2, connect outcome 9x2 as '
+        'rule': 'configuration cells: timing %dx%dx%d, upgrades 2x4x2, cookie 7x2, connect outcome 9x2, cookie 7 x cors_credentials 2 x origin policy 3 x outcome 2 as '
                 'sub-products with the other dimensions at default%s; each on Server and AsyncServer, polling and '
                 'WebSocket opens; plus %d histories of 1..%d rejected opens on one server (value big enough to be compressed / text / False x Accept-Encoding none / gzip / deflate): every 401 decodes, by its own headers, to the value its handler returned; plus overlapping opens (two or three clients opening at once, connect handlers that take 1/8 s for some of them, verdicts {accept, False, text, raise} per client: every interleaving and a bounded number of deviations - each open is honoured on its own, rejected ids are unaddressable and accepted ones usable). Non-trivial = cells whose opening transport is allowed (others are skipped).'
                 % (len(INTERVALS), len(TIMEOUTS), len(BUFS),
